@@ -54,6 +54,9 @@ func newTCPDriver(config *TCPv4, sink packets.Sink, source packets.Source) *tcpD
 	if !config.ParisTracerouteMode {
 		basePacketID = packets.AllocPacketID(config.MaxTTL)
 		seqNum = rand.Uint32()
+		if v, ok := verifSeqNum(); ok {
+			seqNum = v
+		}
 	}
 
 	return &tcpDriver{
